@@ -110,6 +110,26 @@ pub fn to_excel_string(node: &Node, context: &CellReferenceRC) -> String {
     )
 }
 
+/// Like [`to_excel_string`], for the formula of an array formula (`<f t="array">`, fixed range or
+/// dynamic). No implicit intersection is inserted when an array formula is imported, so none of
+/// its `@` operators is redundant: every one is written as `_xlfn.SINGLE`.
+pub fn to_excel_array_string(node: &Node, context: &CellReferenceRC) -> String {
+    #[allow(clippy::expect_used)]
+    let locale = get_locale("en").expect("");
+    #[allow(clippy::expect_used)]
+    let language = get_language("en").expect("");
+    let mut node = node.clone();
+    prefix_bound_variables(&mut node, &mut Vec::new());
+    stringify(
+        &node,
+        Some(context),
+        &DisplaceData::None,
+        true,
+        locale,
+        language,
+    )
+}
+
 /// Excel stores LAMBDA parameters and LET variables with an `_xlpm.` prefix,
 /// both at the declaration and at every use site:
 /// `LET(x,1,x*2)` is written as `_xlfn.LET(_xlpm.x,1,_xlpm.x*2)`.
